@@ -17,6 +17,7 @@ import pickle
 import shutil
 import sys
 import tempfile
+import typing
 import warnings
 
 from .. import common
@@ -265,6 +266,28 @@ def _ops():
 
         return [v.shape for v in gen(Duck((2,)))]
 
+    def decorate_old_generator_fresh():
+        # the same, but every annotation is spelled out afresh (no shared objects): what typing
+        # caches by equality must not tie this annotation to equal-looking ones made later
+        import typeguard
+        from typing import Iterator, Optional
+
+        with warnings.catch_warnings():
+            warnings.simplefilter("ignore")
+
+            @jaxtyped
+            @typeguard.typechecked
+            def gen(x: jaxtyping.Float[Duck, "opt"]) -> Iterator[Optional[jaxtyping.Float[Duck, "opt"]]]:
+                yield x
+
+            @jaxtyped
+            @typeguard.typechecked
+            def gen2(x: jaxtyping.Float[Duck, "opt"]) -> Iterator[jaxtyping.Float[typing.Union[Duck, CDuck], "opt"]]:
+                yield x
+
+        return [v.shape for v in gen(Duck((2,)))] + [v.shape for v in gen2(Duck((2,)))]
+
+    ops["decorate_old_generator_fresh"] = decorate_old_generator_fresh
     ops["decorate_new"] = decorate_new
     ops["decorate_old"] = decorate_old
     ops["decorate_old_generator"] = decorate_old_generator
@@ -409,6 +432,12 @@ def battery():
     out.append(("bare wrong class", c(Duck((2,)), e["CA"])))
     out.append(("bare ? outside PyTree", c(Duck((2,)), F["?n"])))
     out.append(("bare Int", c(Duck((2,), "float32"), Int[Duck, "a"])))
+    import typing
+
+    fresh = typing.get_args(typing.Optional[Float[Duck, "opt"]])[0]
+    out.append(("fresh Optional member", (c(Duck((2,), "int32"), fresh), c("x", fresh), c(Duck((2,)), fresh))))
+    u0, u1 = typing.get_args(Float[typing.Union[Duck, e["CDuck"]], "opt"])  # = Union[Float[Duck, ..], Float[CDuck, ..]]
+    out.append(("fresh union array type", (c(Duck((2,), "int32"), u0), c("x", u0), c("x", u1), c(Duck((2,)), u0), c(e["CDuck"]((2,)), u1))))
     out.append(("top-level print_bindings", adapter.bindings_text()))
     with jaxtyped("context"):
         out.append(("ctx a=2", c(Duck((2,)), F["a"])))
@@ -456,6 +485,7 @@ def battery():
 TRUTH = {
     "bare wrong dtype": False, "bare wrong dtype Vec": False, "bare non-array Vec": False, "bare non-array CA": False, "bare wrong rank": False,
     "bare wrong class": False, "bare ? outside PyTree": "AnnotationError", "bare Int": False, "top-level print_bindings": "\n",
+    "fresh Optional member": (False, False, True), "fresh union array type": (False, False, False, True, True),
     "ctx a=2": True, "ctx a=3 rejected": False, "ctx Vec": True, "ctx Vec rejected": False,
     "pt ok": True, "pt bad": False, "pt wrong dtype leaf": False, "ptq ok": True, "ptq bad": False, "ptq wrong structure": False,
     "ctx T unbound composite": "AnnotationError", "decorated ok": "returned", "decorated bad": "TypeCheckError",
@@ -617,7 +647,7 @@ def op_names():
     return [
         "arr_pass", "arr_fail", "arr_pass_ctx", "arr_fail_ctx", "arr_unbound_symbolic", "arr_q_misuse", "pt_pass", "pt_fail_leaf0", "pt_fail_leaf2",
         "pt_custom_node", "pt_leaf_instancecheck", "pt_nested", "pt_q", "pt_bare", "call_ok", "call_bad_param", "call_bad_param_repr", "call_bad_return",
-        "call_symbolic_fn", "decorate_new", "decorate_old", "decorate_old_generator", "dataclass", "pickle_copy", "hook_import", "config_toggle", "name_format",
+        "call_symbolic_fn", "decorate_new", "decorate_old", "decorate_old_generator", "decorate_old_generator_fresh", "dataclass", "pickle_copy", "hook_import", "config_toggle", "name_format",
         "hook_import_broken_module", "generator_left_suspended", "coroutine_left_suspended",
     ]  # fmt: skip
 
